@@ -433,13 +433,25 @@ class Exec:
                 continue
             raise Unsupported("frame %s" % kind)
 
+    def assume_bool(self, t, st):
+        """Conditions and operands of `!` are source-level booleans (0 or 1): the optimizer relies on it
+        (e.g. `if b {1} else {0}` is rewritten to `b`).  Assumed on the reference side."""
+        if self.role != "ref":
+            return
+        c = z3.simplify(z3.Or(t == BV(0), t == BV(1)))
+        if not z3.is_true(c):
+            st.pc.append(c)
+            st.model = None
+
     # ------------------------------------------------------------------ statements
     def exec_stmt(self, s, st, work):
         k = s["k"]
         if k == "bin":
             return self.do_bin(s, st, work)
         if k == "not":
-            st.env[s["n"]] = Int(self.as_int(self.ev(s["e"], st), "not") ^ BV(1))
+            t = self.as_int(self.ev(s["e"], st), "not")
+            self.assume_bool(t, st)
+            st.env[s["n"]] = Int(t ^ BV(1))
             return None
         if k == "isptr":
             st.env[s["n"]] = Int(z3.If(self.isptr(self.ev(s["e"], st), s["pt"]), BV(1), BV(0)))
@@ -464,7 +476,9 @@ class Exec:
             st.env[s["n"]] = Obj(s["t"], [Fn(s["fn"]), self.ev(s["ctx"], st)])
             return None
         if k == "if":
-            c = self.as_int(self.ev(s["c"], st), "if") != BV(0)
+            ct = self.as_int(self.ev(s["c"], st), "if")
+            self.assume_bool(ct, st)
+            c = ct != BV(0)
 
             def then_(x, s=s):
                 x.stack.append(("fa", s["fa"], 1))
@@ -476,7 +490,9 @@ class Exec:
             outs = self.branch(st, c, work, then_, else_)
             return self.resume(outs, st, work)
         if k == "sif":
-            c = self.as_int(self.ev(s["c"], st), "if") != BV(0)
+            ct = self.as_int(self.ev(s["c"], st), "if")
+            self.assume_bool(ct, st)
+            c = ct != BV(0)
             if s["inv"]:
                 c = z3.Not(c)
 
